@@ -5,6 +5,7 @@ package harness
 import (
 	"bytes"
 	"fmt"
+	"io"
 	"os"
 	"path/filepath"
 	"reflect"
@@ -70,6 +71,7 @@ type c01Case struct {
 	Corpus string  `json:"corpus,omitempty"` // file name under seqio/testdata
 	Year   int     `json:"year,omitempty"`   // date mode: all days of this year
 	Input  []byte  `json:"input,omitempty"`  // fuzz mode: raw bytes offered to the reader
+	Deliv  int     `json:"deliv,omitempty"`  // record, stream, corpus: how the reader hands the bytes over when the output is read back (deliveryNames)
 }
 
 func (r gbRec) residues() []byte {
@@ -140,11 +142,15 @@ func writeGenBank(seqs []gts.Sequence) (string, *Violation) {
 	return buf.String(), nil
 }
 
-func readGenBank(text string) ([]seqio.GenBank, string, *PanicInfo) {
+func readGenBank(text string, how ...int) ([]seqio.GenBank, string, *PanicInfo) {
 	var out []seqio.GenBank
 	errText := ""
 	pi := guard(func() {
-		sc := seqio.NewAutoScanner(strings.NewReader(text))
+		var src io.Reader = strings.NewReader(text)
+		if len(how) > 0 && how[0] != 0 {
+			src = deliver([]byte(text), how[0])
+		}
+		sc := seqio.NewAutoScanner(src)
 		for sc.Scan() {
 			switch v := sc.Value().(type) {
 			case seqio.GenBank:
@@ -246,7 +252,10 @@ func compareRecords(what string, a, b seqio.GenBank) *Violation {
 }
 
 // roundTrip: write -> read -> compare -> write again -> byte equality.
-func roundTrip(what string, recs []seqio.GenBank) *Violation {
+func roundTrip(what string, recs []seqio.GenBank, how ...int) *Violation {
+	if len(how) > 0 && how[0] != 0 {
+		what += " (reader: " + deliveryNames[how[0]%len(deliveryNames)] + ")"
+	}
 	seqs := make([]gts.Sequence, len(recs))
 	for i, r := range recs {
 		seqs[i] = r
@@ -255,7 +264,7 @@ func roundTrip(what string, recs []seqio.GenBank) *Violation {
 	if v != nil {
 		return v
 	}
-	back, errText, pi := readGenBank(s1)
+	back, errText, pi := readGenBank(s1, how...)
 	if pi != nil {
 		return panicViolation("reading back "+what, pi)
 	}
@@ -340,20 +349,20 @@ func c01Check(c c01Case) *Violation {
 		for i, r := range c.Recs {
 			recs[i] = r.build()
 		}
-		return roundTrip(c.Mode, recs)
+		return roundTrip(c.Mode, recs, c.Deliv)
 	case "corpus":
 		data, err := os.ReadFile(filepath.Join(corpusDir(), c.Corpus))
 		if err != nil {
 			panic(err)
 		}
-		recs, errText, pi := readGenBank(string(data))
+		recs, errText, pi := readGenBank(string(data), c.Deliv)
 		if pi != nil {
 			return panicViolation("reading corpus file "+c.Corpus, pi)
 		}
 		if errText != "" || len(recs) == 0 {
 			return viol("corpus", "corpus file %s: %d records, error %q", c.Corpus, len(recs), errText)
 		}
-		return roundTrip("corpus "+c.Corpus, recs)
+		return roundTrip("corpus "+c.Corpus, recs, c.Deliv)
 	case "pipeline":
 		var seq gts.Sequence
 		if c.Corpus != "" {
@@ -752,6 +761,9 @@ func c01Gen(t *rapid.T) c01Case {
 		for i := 0; i < n; i++ {
 			c.Recs = append(c.Recs, c01GenRec(t, false))
 		}
+		if rapid.IntRange(0, 2).Draw(t, "shortreads") == 0 {
+			c.Deliv = rapid.IntRange(1, len(deliveryNames)-1).Draw(t, "deliv")
+		}
 		return c
 	case 2, 3:
 		c := c01Case{Mode: "pipeline"}
@@ -798,11 +810,15 @@ func c01Gen(t *rapid.T) c01Case {
 	}
 }
 
+func c01CorpusFiles() []string {
+	return []string{"NC_000913.3.min.gb", "NC_001422.gb", "NC_001422_part.gb", "pBAT5.txt"}
+}
+
 func TestC01(t *testing.T) {
 	st := newStats("C01")
 	defer st.flush()
 	e := enumPart(t, c01Prop, st, "corpus")
-	for _, f := range []string{"NC_000913.3.min.gb", "NC_001422.gb", "NC_001422_part.gb", "pBAT5.txt"} {
+	for _, f := range c01CorpusFiles() {
 		if !e.try(c01Case{Mode: "corpus", Corpus: f}) {
 			return
 		}
@@ -887,6 +903,26 @@ func TestC01(t *testing.T) {
 		}
 		eb.done(thorough())
 		st.note("read-boundary-sweep: %d of 4096 alignments of the second record covered", len(seen))
+		// deliveries: the same streams (and the corpus files) through readers that hand the bytes over in other portions
+		ed := enumPart(t, c01Prop, st, "deliveries")
+		for how := 1; how < len(deliveryNames); how++ {
+			for _, n := range []int{0, 61, 600, 3000} {
+				for _, pad := range []int{0, 1, 2, 3} {
+					if !ed.try(c01Case{Mode: "stream", Recs: []gbRec{first(n, pad), rich, tail}, Deliv: how}) {
+						return
+					}
+				}
+			}
+			if !ed.try(c01Case{Mode: "record", Recs: []gbRec{rich}, Deliv: how}) {
+				return
+			}
+			for _, f := range c01CorpusFiles() {
+				if !ed.try(c01Case{Mode: "corpus", Corpus: f, Deliv: how}) {
+					return
+				}
+			}
+		}
+		ed.done(true)
 	}
 	// the LOCUS line: every name length 1..40 against lengths of 1..8 digits (residues, or the span of a CONTIG-only
 	// record), molecules, topologies and divisions - a fixed-column line whose fields must stay apart
